@@ -24,10 +24,11 @@ type strPost struct {
 }
 
 type idxProver struct {
-	w     *World
-	post  map[*ssa.Function]strPost
-	pre   map[*ssa.Parameter]int // required minLen of string/slice parameters
-	depth int
+	edgeFacts map[ssa.Instruction][]Fact
+	w         *World
+	post      map[*ssa.Function]strPost
+	pre       map[*ssa.Parameter]int // required minLen of string/slice parameters
+	depth     int
 }
 
 func newIdxProver(w *World) *idxProver {
@@ -102,12 +103,13 @@ func (p *idxProver) minLen(v ssa.Value, at ssa.Instruction) int {
 		}
 	case *ssa.Phi:
 		m := -1
-		for _, e := range x.Edges {
+		for i, e := range x.Edges {
 			if e == v {
 				continue
 			}
-			n := p.minLen(e, x)
-			// facts valid on the incoming edge: approximate with facts at the end of the predecessor
+			// the facts valid on the incoming edge: those at the end of the predecessor plus its branch decision
+			n := 0
+			p.onEdge(x, i, func(term ssa.Instruction) { n = p.minLen(e, term) })
 			if m < 0 || n < m {
 				m = n
 			}
@@ -146,7 +148,7 @@ func (p *idxProver) minLen(v ssa.Value, at ssa.Instruction) int {
 	// facts
 	first := -1
 	notOneChar := map[int]bool{} // v != "c" for these c
-	for _, f := range condFacts(at) {
+	for _, f := range p.facts(at) {
 		b, ok := f.Cond.(*ssa.BinOp)
 		if !ok {
 			continue
@@ -217,7 +219,33 @@ func (p *idxProver) minLen(v ssa.Value, at ssa.Instruction) int {
 
 // firstByte of v known at `at` (-1 unknown). Requires minLen >= 1 separately.
 func (p *idxProver) firstByte(v ssa.Value, at ssa.Instruction) int {
+	if p.depth > 12 {
+		return -1
+	}
+	p.depth++
+	defer func() { p.depth-- }()
 	switch x := v.(type) {
+	case *ssa.Phi:
+		fb := -2
+		for i, e := range x.Edges {
+			if e == v {
+				continue
+			}
+			b := -1
+			p.onEdge(x, i, func(term ssa.Instruction) {
+				if p.minLen(e, term) >= 1 {
+					b = p.firstByte(e, term)
+				}
+			})
+			if fb == -2 {
+				fb = b
+			} else if fb != b {
+				fb = -1
+			}
+		}
+		if fb >= 0 {
+			return fb
+		}
 	case *ssa.Const:
 		if s, ok := constString(x); ok && len(s) > 0 {
 			return int(s[0])
@@ -233,7 +261,7 @@ func (p *idxProver) firstByte(v ssa.Value, at ssa.Instruction) int {
 			}
 		}
 	}
-	for _, f := range condFacts(at) {
+	for _, f := range p.facts(at) {
 		b, ok := f.Cond.(*ssa.BinOp)
 		if !ok {
 			continue
@@ -373,7 +401,7 @@ func (p *idxProver) lowerBound(v ssa.Value, at ssa.Instruction) (int64, bool) {
 			up(lo)
 		}
 	}
-	for _, f := range condFacts(at) {
+	for _, f := range p.facts(at) {
 		b, ok := f.Cond.(*ssa.BinOp)
 		if !ok {
 			continue
@@ -446,7 +474,7 @@ func (p *idxProver) upperRel(v ssa.Value, at ssa.Instruction) (ssa.Value, int64,
 		}
 	}
 	// facts: v < len(S), v <= len(S) - c ...
-	for _, f := range condFacts(at) {
+	for _, f := range p.facts(at) {
 		b, ok := f.Cond.(*ssa.BinOp)
 		if !ok {
 			continue
@@ -746,7 +774,9 @@ var trustedRules = []trustedRule{
 		}},
 }
 
-func typeShort(t types.Type) string { return types.TypeString(t, func(p *types.Package) string { return "" }) }
+func typeShort(t types.Type) string {
+	return types.TypeString(t, func(p *types.Package) string { return "" })
+}
 
 // collect enumerates and tries to discharge the obligations of f.
 func (p *idxProver) collect(f *ssa.Function) []idxOb {
@@ -1066,7 +1096,7 @@ func mapMadeInConstructor(w *World, fv *types.Var) bool {
 	for _, f := range w.Funcs {
 		for _, st := range storesToField(f, fv) {
 			if _, isMake := st.Val.(*ssa.MakeMap); isMake {
-				if al, ok := st.Addr.(*ssa.FieldAddr).X.(*ssa.Alloc); ok && al.Heap {
+				if al, ok := fieldAddrOf(st).X.(*ssa.Alloc); ok && al.Heap {
 					made = true
 				}
 			}
@@ -1194,4 +1224,42 @@ func sumOfLensContains(total, term ssa.Value) bool {
 		}
 	}
 	return false
+}
+
+// facts: the branch facts at an instruction, plus the decision of the edge being evaluated (onEdge).
+func (p *idxProver) facts(at ssa.Instruction) []Fact {
+	fs := condFacts(at)
+	if ex, ok := p.edgeFacts[at]; ok {
+		fs = append(fs, ex...)
+	}
+	return fs
+}
+
+// onEdge evaluates fn at the end of the i-th predecessor of the phi's block, with
+// that predecessor's own branch decision towards the block added as a fact.
+func (p *idxProver) onEdge(ph *ssa.Phi, i int, fn func(term ssa.Instruction)) {
+	b := ph.Block()
+	if i >= len(b.Preds) || len(b.Preds[i].Instrs) == 0 {
+		fn(ph)
+		return
+	}
+	pb := b.Preds[i]
+	term := pb.Instrs[len(pb.Instrs)-1]
+	if iff, ok := term.(*ssa.If); ok && len(pb.Succs) == 2 && pb.Succs[0] != pb.Succs[1] {
+		c, pos := stripNot(iff.Cond)
+		truth := (pb.Succs[0] == b) == pos
+		if p.edgeFacts == nil {
+			p.edgeFacts = map[ssa.Instruction][]Fact{}
+		}
+		old, had := p.edgeFacts[term]
+		p.edgeFacts[term] = append(append([]Fact(nil), old...), Fact{iff, c, truth})
+		fn(term)
+		if had {
+			p.edgeFacts[term] = old
+		} else {
+			delete(p.edgeFacts, term)
+		}
+		return
+	}
+	fn(term)
 }
